@@ -203,6 +203,28 @@ IsNoOpCall(c, r) ==
       [] OTHER -> FALSE
 NoOpIdentity == [][(hist' # hist /\ IsNoOpCall(hist'[Len(hist')], rel)) => rel' = rel]_vars
 
+(* ---------------- raw trees: conform of a tree built without the engine ---------------- *)
+RawStep(c, t) ==
+    CASE c.f = "un"    -> Un(c.op, t)
+      [] c.f = "join"  -> Bin(JoinOp(c.p, CommonCols(Cols(t), Cols(OperandTree(c.rhs)))), t, OperandTree(c.rhs))
+      [] c.f = "joinl" -> Bin(JoinOp(PLit(TRUE), CommonCols(Cols(t), Cols(OperandTree(c.lhs)))), OperandTree(c.lhs), t)
+      [] c.f = "chain" -> Bin(ChainOp, t, OperandTree(c.rhs))
+      [] c.f = "chainl" -> Bin(ChainOp, OperandTree(c.lhs), t)
+      [] c.f = "xfer"  -> t
+RECURSIVE RawFold(_, _)
+RawFold(h, t) == IF h = <<>> THEN t ELSE RawFold(Tail(h), RawStep(Head(h), t))
+\* the same operation sequence assembled bottom-up with the plain constructors
+RawTree == RawFold(hist, LeafT1(t1, bnd))
+RawConf == Conform(RawTree)
+
+RawConformKeeps ==
+    LET c == RawConf IN
+    IF IsErr(c) THEN c.err = "OrderLoss"
+    ELSE /\ (BagDet(c, Env) /\ BagDet(c, Rev)) => SameBag(Den(c, Env), ref) /\ SameBag(Den(c, Rev), ref)
+         /\ MarkerCoherent(c)
+         /\ Conform(c) = c
+         /\ Cols(c) = Cols(rel)
+
 (* ---------------- requests that must be refused ---------------- *)
 OnlyIterNeg == [x |-> "fn", f |-> "neg", args |-> <<A>>, only |-> "iter"]
 IllCalls ==
@@ -250,6 +272,9 @@ EmitState ==
                       trivial |-> Trivial(rel), jid |-> JoinIdentity(rel)],
             doomed |-> <<d0.doomed, d1.doomed>>,
             nested |-> NestedCompound(rel),
+            rawconf |-> RawConf,
+            rawdet |-> (~IsErr(RawConf) /\ BagDet(RawConf, Env) /\ BagDet(RawConf, Rev)),
+            rawnested |-> (~IsErr(RawConf) /\ NestedCompound(RawConf)),
             rejects |-> Rejects(rel, hist),
             fired |-> Fired])>>)
 =============================================================================
